@@ -85,12 +85,30 @@ func firstLine(s string, n int) string {
 	return s
 }
 
+// pandoraFrames keeps the source positions inside /repo of a stack dump (innermost first).
+func pandoraFrames(stack string) string {
+	var out []string
+	for _, l := range strings.Split(stack, "\n") {
+		l = strings.TrimSpace(l)
+		if strings.HasPrefix(l, "/repo/") {
+			if i := strings.IndexByte(l, ' '); i > 0 {
+				l = l[:i]
+			}
+			out = append(out, l)
+			if len(out) == 6 {
+				break
+			}
+		}
+	}
+	return strings.Join(out, " <- ")
+}
+
 // stageCall runs f, turning a panic into a recorded outcome.
 func stageCall(stage string, out *outcome, f func() error) (ok bool) {
 	defer func() {
 		if p := recover(); p != nil {
 			out.stage, out.panicked = stage, true
-			out.err = fmt.Errorf("%v\n%s", p, debug.Stack())
+			out.err = fmt.Errorf("%v [%s]", p, pandoraFrames(string(debug.Stack())))
 			ok = false
 		}
 	}()
